@@ -46,8 +46,13 @@ def gen_expr(rng):
     d = len(N)
     if rng.random() < 0.15:          # multiplied by a scalar that is itself computed from (tracked) TT operands
         Ns = [rng.choice([2, 3]) for _ in range(rng.choice([1, 2]))]
-        u = tt(rng, Ns)                                  # the scalar is a sum of squares of a non-zero tensor: never exactly 0, where `other != 0` is not differentiable
-        sc = Op("ODot", [u, u]) if rng.random() < 0.6 else Op("OSum", [Op("OMul", [u, u])])
+        u = tt(rng, Ns)
+        if rng.random() < 0.35:                          # a computed scalar whose VALUE is exactly 0 while its derivative is not: <u, v> with disjoint supports in the first mode
+            Ns[0] = 2; u = tt(rng, Ns); v = tt(rng, Ns)
+            u.cores[0] = u.cores[0].copy(); v.cores[0] = v.cores[0].copy(); u.cores[0][:, 1, :] = 0; v.cores[0][:, 0, :] = 0
+            sc = Op("ODot", [u, v]); tags.append("*computed-scalar-of-value-zero")
+        else:
+            sc = Op("ODot", [u, u]) if rng.random() < 0.6 else Op("OSum", [Op("OMul", [u, u])])
         e = Op(rng.choice(["OMul", "ORMul"]), [e, sc]); tags.append("*computed-scalar")
     k = rng.random()
     if k < 0.12 and d >= 2:
@@ -123,9 +128,6 @@ def run(tier, seed, replay=None):
         finally:
             pass
         fails = []
-        if "*computed-scalar" in tags and float(vi.abs().sum()) == 0.0:
-            for l in lits: l._override = None
-            continue
         if list(vi.shape) != list(vd.shape) or not torch.equal(vi, vd): fails.append("value differs from the dense expression")
         if list(ti.shape) != list(td.shape) or not torch.equal(ti, td):
             fails.append("directional derivative w.r.t. the tracked cores differs from the derivative of the dense expression")
@@ -225,21 +227,61 @@ def run(tier, seed, replay=None):
             if len(set(ptrs)) != len(ptrs): V.fail("factory %s: two cores of the new tensor share their storage" % fac, desc)
             av = (ttm(rng, N, N) if ttm_ else tt(rng, N)); a_t = av.impl([], torch.float64); a_d = av.dense([], torch.float64)
             torchtt.grad.watch(x)
-            r = x * a_t + x * x
+            # the tracked factory tensor used directly, through an integer slice (reduce_dims folds the sliced core into its neighbour: for `ones`
+            # the folded factor is an identity matrix) or through a partial sum
+            form = "plain" if ttm_ else ["plain", "int-slice", "sum-mode", "int-slice"][j % 4]
+            desc["form"] = form
+            if form == "int-slice":
+                pos = rng.randrange(d); ii = rng.randrange(N[pos]); tup = tuple(ii if k_ == pos else slice(None) for k_ in range(d)); desc["index"] = [pos, ii]
+                view = lambda t_: t_[tup]
+            elif form == "sum-mode":
+                pos = rng.randrange(d); desc["sum"] = pos
+                view = lambda t_: t_.sum(pos)
+            else: view = lambda t_: t_
+            xv = view(x)
+            r = xv * view(a_t) + xv * xv
             w = torch.tensor(np.array([rng.randint(-2, 2) for _ in range(int(np.prod(r.full().shape)))]).reshape(r.full().shape), dtype=torch.float64)
             g = torchtt.grad.grad((r.full() * w).sum(), x)
             if j % 2 == 1: torchtt.grad.unwatch(x)
             leaves = [c.clone().requires_grad_(True) for c in cores0]
-            xd = dense_of(leaves, ttm_)
-            gd = torch.autograd.grad(((xd * a_d + xd * xd) * w).sum(), leaves, allow_unused=True)
+            xd = view(dense_of(leaves, ttm_)); ad_ = view(a_d)
+            gd = torch.autograd.grad(((xd * ad_ + xd * xd) * w).sum(), leaves, allow_unused=True)
             for k_, (gg, gr) in enumerate(zip(g, gd)):
                 want = gr if gr is not None else torch.zeros_like(cores0[k_])
                 if gg is None: gg = torch.zeros_like(want)
-                if list(gg.shape) != list(want.shape) or float((gg - want).abs().max()) > 1e-9 * (1.0 + float(want.abs().max())):
+                if list(gg.shape) != list(want.shape) or not (float((gg - want).abs().max()) <= 1e-9 * (1.0 + float(want.abs().max()))):
                     V.fail("factory %s: grad.grad w.r.t. a core differs from the dense derivative w.r.t. that core" % fac, dict(desc, core=k_)); break
             dist["factory leaf:" + fac] = dist.get("factory leaf:" + fac, 0) + 1
         except Exception as ex:
             V.fail("factory leaf %s raises %s" % (fac, type(ex).__name__), dict(desc, exc=str(ex)[:200]))
+    # ---- operands whose cores carry extreme but representable scales (first core 2^-530, last core 2^530, or one overall factor): the value of
+    # dot / a weighted sum is of order one, the per-core derivatives span 300 decades - each must still equal the dense per-core derivative
+    for j in range(6 if tier == "quick" else 60):
+        d = rng.choice([2, 3, 4]); N = [rng.choice([2, 3]) for _ in range(d)]
+        kind_ = ["first-small-last-large", "overall-small", "one-huge-entry"][j % 3]
+        desc = {"family": "extreme core scales", "kind": kind_, "N": N}
+        try:
+            av, bv = tt(rng, N), tt(rng, N)
+            ac = [c.clone() for c in av.impl([], torch.float64).cores]; b_t = bv.impl([], torch.float64); b_d = bv.dense([], torch.float64)
+            if kind_ == "first-small-last-large": ac[0] = ac[0] * 2.0 ** -530; ac[-1] = ac[-1] * 2.0 ** 530
+            elif kind_ == "overall-small": ac[0] = ac[0] * 2.0 ** -530
+            else: ac[0] = ac[0].clone(); ac[0][0, 0, 0] = 2.0 ** 515
+            a_t = torchtt.TT([c.clone() for c in ac]); torchtt.grad.watch(a_t)
+            val = torchtt.dot(a_t, b_t) if j % 2 == 0 else torchtt.dot(a_t * b_t, b_t + 1.5)
+            g = torchtt.grad.grad(val, a_t)
+            leaves = [c.clone().requires_grad_(True) for c in ac]
+            ad_ = dense_of(leaves, False)
+            vd = (ad_ * b_d).sum() if j % 2 == 0 else ((ad_ * b_d) * (b_d + 1.5)).sum()
+            gd = torch.autograd.grad(vd, leaves, allow_unused=True)
+            if not abs(float(val) - float(vd)) <= 1e-9 * max(abs(float(vd)), 1e-300): V.fail("extreme core scales: value of dot differs from the dense value", dict(desc, impl=float(val), dense=float(vd)))
+            for k_, (gg, gr) in enumerate(zip(g, gd)):
+                want = gr if gr is not None else torch.zeros_like(ac[k_])
+                if gg is None: gg = torch.zeros_like(want)
+                if list(gg.shape) != list(want.shape) or not (float((gg - want).abs().max()) <= 1e-9 * float(want.abs().max())):
+                    V.fail("extreme core scales: grad.grad w.r.t. a core differs from the dense derivative w.r.t. that core", dict(desc, core=k_, impl_max=float(gg.abs().max()), dense_max=float(want.abs().max()))); break
+            dist["extreme scales:" + kind_] = dist.get("extreme scales:" + kind_, 0) + 1
+        except Exception as ex:
+            V.fail("extreme core scales: %s raises %s" % (kind_, type(ex).__name__), dict(desc, exc=str(ex)[:200]))
     n_model = 0
     if ok_make and mcases:
         codes = coqrun.eval_codes("C15_DZ", "DZ", mcases, fn="check_model")
